@@ -154,7 +154,7 @@ SESSION_INV = ("C05_AtMostOnce C05_OnlyReceivedStanzas C05_RoutedExactlyOnce C05
                "C12_ReportedOnce C12_NothingDropped")
 
 
-def session_cfg(steps, maxsend, maxh, srv, send, sm, lockstep, cut, emit, renumber=True):
+def session_cfg(steps, maxsend, maxh, srv, send, sm, lockstep, cut, emit, renumber=True, resume=0):
     b = lambda x: "TRUE" if x else "FALSE"
     return """SPECIFICATION Spec
 CONSTANTS
@@ -167,11 +167,12 @@ CONSTANTS
   Renumber = %s
   LockStep = %s
   AllowCut = %s
+  MaxResume = %d
   Emit = %s
 INVARIANTS %s %s
 PROPERTIES C10_AckStep
 CHECK_DEADLOCK FALSE
-""" % (steps, maxsend, maxh, srv, send, b(sm), b(renumber), b(lockstep), b(cut), b(emit), SESSION_INV, "EmitInv" if emit else "")
+""" % (steps, maxsend, maxh, srv, send, b(sm), b(renumber), b(lockstep), b(cut), resume, b(emit), SESSION_INV, "EmitInv" if emit else "")
 
 
 def session_check(ctx, gens, mcs, nvar, nburst, extra_scen=(), extra_args=()):
@@ -204,7 +205,8 @@ def c05(ctx):
             dict(steps=n, maxsend=1, maxh=1, srv="SrvC05", send="SendOne", sm=False, cut=False)]
     mcs = [dict(steps=n + 1, maxsend=1, maxh=1, srv="SrvQuick", send="SendOne", sm=True, cut=True)]
     ctx.notes["bounds"] = "all inbound histories of length %d over {msg,pres,iqget,iqset,iqres,iqerr,r,a(h<=1),features} with <=1 user send, SM on and off; all route-goroutine interleavings in the model for length %d" % (n, n + 1)
-    session_check(ctx, gens, mcs, nvar=300 if q else 3000, nburst=150 if q else 2000)
+    session_check(ctx, gens, mcs, nvar=300 if q else 3000, nburst=150 if q else 2000,
+                  extra_args=["-blockers", "6" if q else "40", "-stalls", "12" if q else "120"])
     if not ctx.replay:
         # the component clause: stanzas routed inline, in arrival order (ComponentSession.tla)
         comp_run(ctx, [dict(conns=1, maxstz=3 if q else 4, stz=S("msg", "iqres", "iqget", "pres"))])
@@ -214,8 +216,10 @@ def c05(ctx):
 def c09(ctx):
     q = ctx.tier == "quick"
     n = 4 if q else 5
-    gens = [dict(steps=n, maxsend=1, maxh=1, srv="SrvC09", send="SendA", sm=True, cut=False)]
-    mcs = [dict(steps=n + 1, maxsend=1, maxh=1, srv="SrvC09", send="SendA", sm=True, cut=False)]
+    gens = [dict(steps=n, maxsend=1, maxh=1, srv="SrvC09", send="SendA", sm=True, cut=False),
+            # the inbound history goes on across a resumption of the session
+            dict(steps=n, maxsend=0, maxh=0, srv="SrvQuick", send="SendA", sm=True, cut=False, resume=1)]
+    mcs = [dict(steps=n if q else n + 1, maxsend=1, maxh=1, srv="SrvC09", send="SendA", sm=True, cut=False)]
     ctx.notes["bounds"] = "all inbound histories of length %d over {msg,pres,iqget,r,a(h<=1),features} plus a user-sent answer, SM on; h of <resume/> over all 3-connection histories with SM offered or not per connection and 0..2 stanzas per session" % n
     session_check(ctx, gens, mcs, nvar=300 if q else 3000, nburst=150 if q else 2000)
     if not ctx.replay:
@@ -228,11 +232,14 @@ def c09(ctx):
 def c10(ctx):
     q = ctx.tier == "quick"
     n = 4 if q else 5
-    gens = [dict(steps=n, maxsend=3, maxh=4, srv="SrvC10", send="SendC10", sm=True, cut=False)]
+    gens = [dict(steps=n, maxsend=3, maxh=4, srv="SrvC10", send="SendC10", sm=True, cut=False),
+            # held stanzas survive a resumption (whatever h the server reports in <resumed/>), and acks go on afterwards
+            dict(steps=n, maxsend=2, maxh=3, srv="NoneSet", send="SendOne", sm=True, cut=False, resume=1)]
     mcs = [dict(steps=n, maxsend=3, maxh=4, srv="SrvC10", send="SendC10", sm=True, cut=False),
+           dict(steps=n, maxsend=2, maxh=3, srv="SrvC10", send="SendOne", sm=True, cut=False, resume=1),
            dict(steps=n, maxsend=3, maxh=4, srv="SrvC10", send="SendC10", sm=True, cut=False, renumber=False)]
     ctx.notes["bounds"] = "all outbound histories of length %d over Send/SendRaw/SendIQ of stanzas and of <r/>,<a/>, interleaved with server acks h in 0..4 and one inbound stanza kind, SM on" % n
-    session_check(ctx, gens, mcs, nvar=200 if q else 2000, nburst=0)
+    session_check(ctx, gens, mcs, nvar=200 if q else 2000, nburst=0, extra_args=["-faults", "300" if q else "3000"])
 
 
 @check("C12")
@@ -243,7 +250,7 @@ def c12(ctx):
             dict(steps=n, maxsend=1, maxh=1, srv="SrvQuick", send="SendOne", sm=False, cut=True)]
     mcs = [dict(steps=n + 1, maxsend=1, maxh=1, srv="SrvQuick", send="SendOne", sm=True, cut=True)]
     ctx.notes["bounds"] = "cut after every prefix of every history of length <= %d (SM on/off); seeded variants: RST instead of FIN, chunked writes, cut at byte offsets inside the last element" % n
-    session_check(ctx, gens, mcs, nvar=600 if q else 6000, nburst=100 if q else 1000, extra_args=["-offsets"])
+    session_check(ctx, gens, mcs, nvar=600 if q else 6000, nburst=100 if q else 1000, extra_args=["-offsets", "-stalls", "16" if q else "160"])
 
 
 # ------------------------------------------------------------------ C08
@@ -344,8 +351,8 @@ def c03(ctx):
     q = ctx.tier == "quick"
     allfail = dict(f1=S("tls", "notls", "bad", "close", "other"), tlsr=S("proceed", "failure", "other", "garbage", "close"),
                    certs=S("valid", "untrusted"), f2=S("mech", "close"), authr=S("success", "successdata", "failure", "other", "garbage", "close"),
-                   f3=S("b", "bs", "bo", "bm", "bsm", "close"), resr=S("resumed"), bindr=S("result", "error", "errorecho", "other", "close"),
-                   sessr=S("result", "error", "close"), enr=S("enabled", "enablednoresume", "failed", "other", "close"))
+                   f3=S("b", "bs", "bo", "bm", "bsm", "close"), resr=S("resumed"), bindr=S("result", "resultempty", "resultother", "error", "errorecho", "other", "close"),
+                   sessr=S("result", "error", "close"), enr=S("enabled", "enablednoresume", "failed", "failedbare", "other", "close"))
     gens = [dict(configs="CfgC03", conns=1, **allfail),
             # a failed attempt must not poison the next one on the same client object
             dict(configs="CfgC03two", conns=2, f1=S("notls", "close"), tlsr=S("proceed"), certs=S("valid"), f2=S("mech"),
